@@ -14,4 +14,36 @@ CHECKS = {
   "technique": "TLC exhaustive state graph of the store model + transition-tour replay on both real backends (model-based differential testing)",
  },
 }
+
+HUB_NOTE = ("Bounded by the abstraction of Revocation.tla (2 locations: one CDP set, one configured url/file; 3 certificates incl. a foreign issuer sharing a serial and an ldap-only CDP; "
+            "documents = signer in {issuer, sibling key with the same name, foreign CA} x key sets over 2 serials x {valid, unknown critical extension, garbage, unreachable}); complete per configuration, configurations sampled per tier. "
+            "Concrete bytes (list size, position, serial width, entry extensions, DER/PEM) are seeded samples. Trusts TLC, the harness' projection (verdict, loaded flags, fetch counts) and Go's crypto/x509 for building the PKI.")
+CHECKS.update({
+ "C01": {
+  "text": "Sound (listed in a CRL in force => rejected) is an action property of Revocation.tla proved by TLC on the complete graph of every chosen configuration together with the refinement invariants Refines/Complete (mechanism store == policy-accepted document). Every edge of those graphs (Provision, Handshake with the document served, BgLoad, RefreshAll, Restart) is then executed on a real CertRevocationValidator and the predicate 'ghost says listed-in-force and real verdict is accept' is evaluated; model/code disagreement on verdict, loaded flags or fetches ends the walk as drift.",
+  "note": HUB_NOTE,
+  "technique": "TLC model checking of Revocation.tla + transition-tour replay through VerifyClientCertificate with the specification's ghost state as oracle",
+ },
+ "C10": {
+  "text": "StrictGate and LenientNeverDenies are action properties of Revocation.tla (strict accepts a certificate naming distribution points only while that CRL is in force by the policy ghost; lenient never denies unless listed or OCSP says so), proved per configuration and replayed edge by edge on the real validator incl. fetch_background with the forced update parked at a blocking hook so that 'pending' is a real observable state, ldap-only CDP, restart on disk.",
+  "note": HUB_NOTE,
+  "technique": "TLC model checking of Revocation.tla + transition-tour replay with hook-gated background loads",
+ },
+ "C11": {
+  "text": "Precise (reported revoked => listed in a CRL in force or OCSP revoked) as an action property of Revocation.tla plus the Refines invariant, proved per configuration; replay covers load(rejected);load(accepted);refresh(removing entries) histories of every length the finite abstraction has, on both backends, with near-miss filler serials and a foreign issuer sharing the serial.",
+  "note": HUB_NOTE,
+  "technique": "TLC model checking of Revocation.tla + transition-tour replay with near-miss concretisation",
+ },
+ "C13": {
+  "text": "EntryLocks.tla proves NoDeadlock (as an invariant over the wait-for relation) and the lockset discipline for the entry lock protocol; the Revocation graph of two configurations is replayed with a 30 s watchdog per call so that every explored history incl. 'last refresh failed signature verification' returns. (Concurrent part: see DESIGN.md; grown in later rounds.)",
+  "note": "Sequential histories exhaustive per configuration; interleavings are covered by the lock model only until the gated-schedule replay lands. Trusts TLC and the watchdog bound (longest legitimate retry loop is 5 s).",
+  "technique": "TLC invariant over the wait-for graph (EntryLocks.tla) + watchdog replay of Revocation.tla histories",
+ },
+ "C16": {
+  "text": "PolicyAccepts(sig, doc, ctx) is the single operator every intake action of Revocation.tla uses, with the per-path context table (provision: trusted signers; first CDP fetch: chain+trusted; refresh: stored signer); VerifyNeverInForce (invariant) and LenientRefreshWorks (action property) are proved per configuration for sig in {verify, verify_log, none} x {url, file, CDP} x {memory, disk} and every edge is replayed; predicates: Provision must succeed when the configured CRL is acceptable under the mode, under verify nothing rejected is ever in force (also after restart), under verify_log/none a parseable CRL is in force after every intake path.",
+  "note": HUB_NOTE,
+  "technique": "TLC model checking of Revocation.tla (policy ghost vs mechanism) + transition-tour replay incl. restart on disk",
+ },
+})
+
 PENDING = {}
